@@ -21,6 +21,7 @@ func init() {
 			"D4 MinIndex/MaxIndex of the dense family and the sparse store return the undefined-index error exactly on the emptiness edge. "+
 			"D5 window loops of the dense read paths (ForEach, Bins, Encode, encodeSparsely) cover minIndex…maxIndex inclusive (ToProto/EncodeProto/encodeDensely/Reweight are checked by C09/C06/C16). "+
 			"D6 the window-moving primitives of the dense store as linear forms — shiftCounts copies bins[min−off … max−off] to +shift, resets exactly the vacated slots for either sign of the shift and updates offset −= shift; resetBins zeroes bins[from−off … to−off]; centerCounts stores the new window and shifts by offset + len/2 − (newMin + (newMax−newMin+1)/2); truncating integer division is only applied to widths and lengths. "+
+			"D9 page table of the paginated store — the slice of pages and the index of its first page are written only by the page accessor (resolved by role, with the helpers split off it), by Clear, or into a fresh object; elements of a page obtained from the accessor are touched only on paths that created the page (ensureExists is the constant true) or established by its length that it is not empty (Clear keeps emptied slots: a nil test is not enough). "+
 			"SHARED (obligations of other properties that decide clauses this property states too, re-evaluated here under their home rule ids): for DenseStore, SparseStore and BufferedPaginatedStore only — C01-D3 as C04-D7 (rank lookup: first index whose cumulative weight strictly exceeds the rank, buffer sorted first), C02-D2/D3/D4 (merge from any store kind, argument neither written nor captured, cached total and window follow), C14-D2 (Copy defines every field, deep), C15-D1 (Clear covers every written field), C16-D2 (Reweight scales everything held). C09-D3 for the MergeWithProto loops (every bin of a message is added at its own index). "+
 			"NOT DECIDED: that weights are never lost, duplicated or misattributed by normalize/extendRange/shiftCounts/page()/compact() — value statements about counts.",
 		"one obligation per store × entry point, per fold site, per callback call site, per window loop, per twin path",
@@ -50,6 +51,8 @@ func runC04(c *Ctx) {
 		return
 	}
 	c04PaginatedEmptiness(c, pr)
+	c04PageTable(c, pr, "C04-D9")
+	c04PageUse(c, pr, "C04-D9")
 	if pr.sortFlag != "" {
 		c.shared(func() { c14SortFlag(c, pr) }, func(o *Obligation) bool { return true })
 	}
@@ -948,4 +951,178 @@ func c04PaginatedEmptiness(c *Ctx, pr *paginatedRoles) {
 		}
 		c.R.check(hdr != nil && usesBuf && okRet, rule, "BufferedPaginatedStore.TotalCount/full-scan", shortFn(f), c.fpos(f), "the total is the buffer length plus every line of every page, returned only after the full scan", fmt.Sprintf("full scan=%v uses buffer length=%v returns after scan=%v", hdr != nil, usesBuf, okRet))
 	}
+}
+
+// c04PageTable: the paginated store's page table — the slice of pages and the index of its first page — has one
+// owner. Only the page accessor (by role: the method (pageIndex int, ensureExists bool) []float64, with the helpers
+// split off it) grows or re-bases the table; Clear resets it; a fresh object (constructor, Copy) is filled directly.
+// Every other function reaches pages through the accessor. The accessor is where the table's invariants live (slots
+// kept by Clear are reused, `first page index == maxInt` means "unused" but not "no slots", growth keeps the offset
+// consistent): a second writer has to re-establish all of them, and nothing here could check that it does.
+func c04PageTable(c *Ctx, pr *paginatedRoles, rule string) {
+	if pr == nil || pr.typ == nil {
+		return
+	}
+	var acc *ssa.Function
+	for i := 0; i < pr.typ.NumMethods(); i++ {
+		f := c.P.SSA.FuncValue(pr.typ.Method(i))
+		if f == nil || len(f.Params) != 3 || f.Signature.Results().Len() != 1 {
+			continue
+		}
+		if f.Params[1].Type().String() == "int" && f.Params[2].Type().String() == "bool" && f.Signature.Results().At(0).Type().String() == "[]float64" {
+			acc = f
+		}
+	}
+	if acc == nil {
+		c.R.undecided(rule, "page-table/accessor", "", "", "the page accessor (pageIndex int, ensureExists bool) []float64 of the paginated store", "not found")
+		return
+	}
+	roleAnchors[acc] = true
+	owners := map[*ssa.Function]bool{}
+	for _, f := range withNewHelpers(acc) {
+		owners[f] = true
+	}
+	// the table's fields: what the accessor writes, by type
+	table := map[string]bool{}
+	for f := range owners {
+		for _, b := range f.Blocks {
+			for _, in := range b.Instrs {
+				if st, ok := in.(*ssa.Store); ok {
+					if fa, ok := st.Addr.(*ssa.FieldAddr); ok && types.Identical(derefType(fa.X.Type()), pr.typ) {
+						if ts := derefType(fa.Type()).String(); ts == "[][]float64" || ts == "int" {
+							table[fieldName(fa.X.Type(), fa.Field)] = true
+						}
+					}
+				}
+			}
+		}
+	}
+	if len(table) < 2 {
+		c.R.undecided(rule, "page-table/fields", shortFn(acc), c.fpos(acc), "the accessor writes the page slice and the first page index", fmt.Sprint(table))
+		return
+	}
+	n := 0
+	for _, f := range c.P.Funcs {
+		if !inModule(f) {
+			continue
+		}
+		for _, b := range f.Blocks {
+			for _, in := range b.Instrs {
+				st, ok := in.(*ssa.Store)
+				if !ok {
+					continue
+				}
+				fa, ok := st.Addr.(*ssa.FieldAddr)
+				if !ok || !types.Identical(derefType(fa.X.Type()), pr.typ) || !table[fieldName(fa.X.Type(), fa.Field)] {
+					continue
+				}
+				n++
+				fld := fieldName(fa.X.Type(), fa.Field)
+				_, fresh := fa.X.(*ssa.Alloc)
+				isClear := f.Name() == "Clear" && recvNamed(f) == pr.typ
+				ok = owners[f] || fresh || isClear
+				c.R.check(ok, rule, fmt.Sprintf("page-table/%s/writes-%s", helperKey(f), fld), shortFn(f), c.ipos(st), "the page table is written only by the page accessor (and its helpers), by Clear, or into a fresh object", map[bool]string{true: "owner", false: "a second writer of the page table"}[ok])
+			}
+		}
+	}
+	c.R.floor(rule, "stores to the page table", n, 5)
+}
+
+// c04PageUse: what the page accessor returns for ensureExists == false may be nil OR an emptied slot (Clear keeps the
+// slots as zero-length pages): an element of it is touched only on a path that created the page (ensureExists is
+// the constant true) or has established that it is not empty by its LENGTH — a nil test lets the emptied slots of a
+// cleared store through.
+func c04PageUse(c *Ctx, pr *paginatedRoles, rule string) {
+	if pr == nil || pr.typ == nil {
+		return
+	}
+	var acc *ssa.Function
+	for f := range roleAnchors {
+		if recvNamed(f) == pr.typ && len(f.Params) == 3 && f.Params[2].Type().String() == "bool" && f.Signature.Results().Len() == 1 {
+			acc = f
+		}
+	}
+	if acc == nil {
+		return // reported by page-table/accessor
+	}
+	isPage := func(t *Term) *Term {
+		t = t.unver()
+		if t.Op == "call" && t.Sym == funcName(acc) && len(t.Args) == 3 {
+			return t
+		}
+		return nil
+	}
+	n := 0
+	for i := 0; i < pr.typ.NumMethods(); i++ {
+		f := c.P.SSA.FuncValue(pr.typ.Method(i))
+		if f == nil || f == acc {
+			continue
+		}
+		uses := false
+		for _, g := range withNewHelpers(f) {
+			for _, b := range g.Blocks {
+				for _, in := range b.Instrs {
+					if call, ok := in.(*ssa.Call); ok {
+						if cal, ok := call.Common().Value.(*ssa.Function); ok && cal == acc {
+							uses = true
+						}
+					}
+				}
+			}
+		}
+		if !uses {
+			continue
+		}
+		paths, _ := exec(c, f, nil, 2)
+		bad := ""
+		nAcc := 0
+		check := func(p *Path, addr *Term, seq int) {
+			if addr == nil || addr.Op != "index" || len(addr.Args) != 2 {
+				return
+			}
+			pg := isPage(addr.Args[0])
+			if pg == nil {
+				return
+			}
+			nAcc++
+			if pg.Args[2].isConst("true") {
+				return
+			}
+			for _, cd := range p.Conds {
+				if cd.Seq > seq {
+					continue
+				}
+				t := cd.Term
+				isLen := func(x *Term) bool {
+					x = stripConv(x)
+					return x.Op == "builtin" && x.Sym == "len" && len(x.Args) == 1 && isPage(x.Args[0]) != nil && isPage(x.Args[0]).Key() == pg.Key()
+				}
+				switch {
+				case t.isBin("<") && t.Args[0].isConst("0") && isLen(t.Args[1]) && cd.Taken, // 0 < len
+					t.isBin("<=") && t.Args[0].isConst("1") && isLen(t.Args[1]) && cd.Taken,
+					(t.isBin("==") || t.isBin("!=")) && (t.Args[0].isConst("0") && isLen(t.Args[1]) || t.Args[1].isConst("0") && isLen(t.Args[0])) && cd.Taken == t.isBin("!="):
+					return
+				case t.isBin("<") && isLen(t.Args[1]) && cd.Taken: // k < len(page): the access is in bounds
+					return
+				}
+			}
+			bad = "an element of " + pg.Key() + " is touched without the evidence that the page is not empty: [" + p.String() + "]"
+		}
+		for _, p := range paths {
+			for _, ld := range p.Loads {
+				check(p, ld.Addr, ld.Seq)
+			}
+			for _, e := range p.Effects {
+				if e.Kind == "store" {
+					check(p, e.Addr, e.Seq)
+				}
+			}
+		}
+		if nAcc == 0 {
+			continue
+		}
+		n++
+		c.R.check(bad == "", rule, "page-use/"+helperKey(f), shortFn(f), c.fpos(f), "elements of a page are touched only after the page was created (ensureExists = true) or shown non-empty by its length", firstNonEmpty(bad, fmt.Sprintf("%d element access(es)", nAcc)))
+	}
+	c.R.floor(rule, "methods touching elements of a page returned by the accessor", n, 3)
 }
